@@ -75,36 +75,29 @@ def thorough(ck):
     if not tree_clean:
         ck.extra["self_validation"] = "skipped: the tree itself violates a rule of this property (every variant of it would fire)"
         return
+    jobs = []
     for name, patch, meta in corpus("seeded"):
-        breaks = meta.get("property")
-        also = meta.get("also_detected_by", [])
-        if breaks != prop:
-            continue
-        d = scratch_with_patch(root, patch)
-        if d is None:
-            res["seeded_skipped"].append(name)
-            continue
-        try:
-            viol, inc, _ = analyse(prop, root=d)
-        finally:
-            shutil.rmtree(d, ignore_errors=True)
-        if viol:
-            res["seeded_reported"].append({"change": name, "rules": sorted({o.rule for o in viol})})
-        else:
-            res["seeded_missed"].append(name)
+        if meta.get("property") == prop:
+            jobs.append(("seeded", name, patch))
     for name, patch, meta in corpus("benign"):
-        d = scratch_with_patch(root, patch)
-        if d is None:
-            res["benign_skipped"].append(name)
-            continue
-        try:
-            viol, inc, _ = analyse(prop, root=d)
-        finally:
-            shutil.rmtree(d, ignore_errors=True)
-        if viol or inc:
-            res["benign_alarm"].append({"variant": name, "reports": [(o.rule, o.what) for o in (viol or [])][:3] + [str(x)[:120] for x in (inc or [])][:3]})
+        jobs.append(("benign", name, patch))
+    from concurrent.futures import ProcessPoolExecutor
+    nproc = max(1, min(int(os.environ.get("FXLINT_JOBS", "16")), len(jobs) or 1))
+    with ProcessPoolExecutor(nproc) as ex:
+        outs = list(ex.map(_variant_job, [(prop, root, kind, name, patch) for kind, name, patch in jobs]))
+    for kind, name, status, rules, reports in outs:
+        if status == "skipped":
+            res[kind + "_skipped"].append(name)
+        elif kind == "seeded":
+            if status == "violated":
+                res["seeded_reported"].append({"change": name, "rules": rules})
+            else:
+                res["seeded_missed"].append(name)
         else:
-            res["benign_silent"].append(name)
+            if status in ("violated", "inconclusive"):
+                res["benign_alarm"].append({"variant": name, "reports": reports})
+            else:
+                res["benign_silent"].append(name)
     clear_caches()
     ck.extra["self_validation"] = {k: (v if k.endswith(("missed", "alarm", "skipped")) else len(v)) for k, v in res.items()}
     ck.extra["self_validation"]["seeded_reported_detail"] = res["seeded_reported"]
@@ -117,6 +110,26 @@ def thorough(ck):
     if n:
         ck.ok("SELF", "corpora under /verif/seeded and /verif/benign", "self-validation: %d seeded breaks of %s reported, %d benign variants silent (%d/%d skipped: patch no longer applies)"
               % (len(res["seeded_reported"]), prop, len(res["benign_silent"]), len(res["seeded_skipped"]), len(res["benign_skipped"])))
+
+
+def _variant_job(args):
+    """worker: analyse one variant of the tree (scratch copy with a corpus patch applied); returns a picklable summary"""
+    prop, root, kind, name, patch = args
+    d = scratch_with_patch(root, patch)
+    if d is None:
+        return kind, name, "skipped", [], []
+    try:
+        try:
+            viol, inc, _ = analyse(prop, root=d)
+        except Exception as e:          # an internal error on a variant is an analysis failure of that variant, not a verdict
+            viol, inc = None, ["internal error: %r" % (e,)]
+    finally:
+        shutil.rmtree(d, ignore_errors=True)
+    if viol:
+        return kind, name, "violated", sorted({o.rule for o in viol}), [(o.rule, o.what) for o in viol][:3]
+    if inc:
+        return kind, name, "inconclusive", [], [str(getattr(x, "what", x))[:120] for x in inc][:3]
+    return kind, name, "silent", [], []
 
 
 def _is_known(prop, o):
